@@ -28,6 +28,7 @@ func shrinkDraws(st *Stats, draws []Draw, key string, prop func(*T)) []Draw {
 			return nil, false
 		}
 		runs++
+		progress.Add(1)
 		t := runDraws(st, c, prop)
 		if t.failed && t.failKey == key {
 			return t.draws, true // normalised: what was actually consumed
